@@ -18,6 +18,8 @@ UNITS = {
     'io': ('verus/io/unit.rs.tpl', 'backend-mmap,backend-bitmap,rawfd'),
     'c08': ('verus/c08/unit.rs.tpl', 'backend-bitmap'),
     'xen': ('verus/xen/unit.rs.tpl', 'backend-mmap,backend-bitmap,rawfd,xen'),
+    # the accessor code of volatile_memory.rs under the Xen configuration (same template, cfg xen)
+    'volxen': ('verus/vol/unit.rs.tpl', 'backend-mmap,backend-bitmap,rawfd,xen'),
 }
 
 
@@ -205,7 +207,7 @@ def run_unit(name, repo, scratch, with_canaries=True, jobs=8):
         for d in res['diags']:
             for s_ in d.get('spans', []):
                 if s_.get('is_primary'):
-                    base_keys.add((d.get('message'), s_['line_start']))
+                    base_keys.add((d.get('message'), s_['line_start'], tuple(sorted(x.get('line_start', 0) for x in d.get('spans', [])))))
 
         def one(can):
             try:
@@ -230,12 +232,12 @@ def run_unit(name, repo, scratch, with_canaries=True, jobs=8):
                     if lo <= s_.get('line_start', 0) <= hi:
                         inside = True
                     if s_.get('is_primary'):
-                        key = (d['message'], s_['line_start'])
+                        key = (d['message'], s_['line_start'], tuple(sorted(x.get('line_start', 0) for x in d.get('spans', []))))
                 if inside and key not in base_keys:
                     new_fail.append(key)
             return dict(label=can['label'], fn=can['fn'], status='rejected' if new_fail else 'ACCEPTED',
                         mutation='%s => %s' % (can['regex'], can['repl']),
-                        new_failures=['%s @gen-line %d' % k for k in new_fail][:3])
+                        new_failures=['%s @gen-line %d' % (k[0], k[1]) for k in new_fail][:3])
         with concurrent.futures.ThreadPoolExecutor(max_workers=jobs) as ex:
             result['canaries'] = list(ex.map(one, unit.canaries))
         # a canary whose pattern no longer exists (code changed under it) is skipped, not fatal
